@@ -48,7 +48,7 @@ class C16(core.Check):
     required_buckets = {b: 3 for b in ['line>6-bytes', 'line>16-bytes', 'gap-without-org', 'muted-region', 'zero-length-line',
                                        'included-file', 'predefined-data', 'width:4', 'width:8', 'width:12', 'width:16',
                                        'width:24', 'width:32', 'every-line-length-1..40', 'fmt:listing', 'fmt:hex', 'fmt:intel_hex', 'fmt:minhex',
-                                       'image-fill:nonzero', 'zero-length-at-gap-edge', 'gap:align', 'gap:memzone', 'gap:muted', 'gap:zone-org']}
+                                       'image-fill:nonzero', 'width:not-a-multiple-of-4', 'zero-length-at-gap-edge', 'gap:align', 'gap:memzone', 'gap:muted', 'gap:zone-org']}
     required_buckets['every-line-length-1..40'] = 2
     required_buckets['several-statements-per-line'] = 3
 
@@ -143,6 +143,29 @@ class C16(core.Check):
                                          {'width:16', 'gap:' + gname, 'zero-length:' + zname + '/' + where, 'gap-without-org' if gname != 'org' else 'gap-by-org',
                                           'zero-length-at-gap-edge' if zname != 'none' else 'plain-gap'})
 
+    def odd_width_cases(self):
+        """address widths that are not a multiple of 4 bits, with blocks below, across and above 16**floor(bits/4) and at the top"""
+        for ab in (5, 7, 10, 13, 14, 15, 17):
+            top = (1 << ab) - 1
+            edge = 16 ** (ab // 4)
+            isa = gen_prog.layout_isa(ab)
+            lines = [{'k': 'org', 'addr': 1, 'zone_name': None}, {'k': 'data', 'width': 1, 'vals': [0x11, 0x12]}]
+            if edge - 2 > 4 and edge + 3 < top - 4:
+                lines += [{'k': 'org', 'addr': edge - 2, 'zone_name': None}, {'k': 'data', 'width': 1, 'vals': [0x21, 0x22, 0x23, 0x24]}]
+            mid = (edge + top) // 2
+            if edge + 8 < mid < top - 8:
+                lines += [{'k': 'org', 'addr': mid, 'zone_name': None}, {'k': 'data', 'width': 1, 'vals': [0x31, 0x32]}]
+            lines += [{'k': 'org', 'addr': top - 2, 'zone_name': None}, {'k': 'data', 'width': 1, 'vals': [0x41, 0x42, 0x43]}]
+            res = layout.layout(lines, ab, origin=0, size_of=lambda l, a: gen_prog.byte_line_size(isa, l))
+            if res.kind != 'ACCEPT':
+                continue
+            layout.memory_map(res, lambda l: gen_prog.byte_line_bytes(isa, l, None, {'GLOBAL': (0, top)}))
+            for l in lines:
+                l['text'] = gen_prog.render_line(l, None)
+            ids = {id(l): ('p.asm', n + 1) for n, l in enumerate(lines)}
+            yield self.make_case(isa, {'p.asm': ''.join(l['text'] + '\n' for l in lines)}, 'p.asm', [], res, ids,
+                                 {f'width:{ab}', 'width:not-a-multiple-of-4'})
+
     def compound_cases(self, tier, seed):
         """several statements on one source line (label in front of a statement, joined instructions): the listing must show
         each statement exactly once, in address order, under the same line number"""
@@ -189,6 +212,7 @@ class C16(core.Check):
         yield from self.length_cases()
         yield from self.compound_cases(tier, seed)
         yield from self.gap_cases()
+        yield from self.odd_width_cases()
         n_pre = 90
         n = 90 if tier == 'quick' else 2500
         for i in range(n_pre + n):
